@@ -248,7 +248,14 @@ def _run_hist(case, want_oracle):
                     # padding given as float / as the caller's ndarray / as a Vec view of the caller's ndarray
                     arg = float(Fraction(o[2])) if k == "padf" else arrs[o[2]] if k == "padv" else Vec(arrs[o[2]])
                     before = bounds(b)
+                    # every box the caller holds under another name (position in the history), by VALUE: a box that an earlier
+                    # call returned as an alias of its operand is still "another box" for the caller
+                    tgt = o[1] % len(boxes)
+                    held = [(i, _fmt_box(bx)) for i, bx in enumerate(boxes) if i != tgt]
                     how, out = mon.call("AABB.pad", b.pad, (arg,), may_modify=(b._p1, b._p2))
+                    for i, was in held:
+                        if _fmt_box(boxes[i]) != was and not any(e[0] == "mutates/AABB.pad/other-box" for e in mon.effects):
+                            mon.effects.append(("mutates/AABB.pad/other-box", f"box{i} changed during pad of box{tgt} (step {step}): was {was}, now {_fmt_box(boxes[i])}"))
                     res = "-" if how == "return" else _map_exc(out)
                     if want_oracle and how == "return":
                         p = [Fraction(o[2])] * b.dim if k == "padf" else exact[o[2]]
